@@ -14,6 +14,7 @@ import Restful.Lemmas.ReadTemplate
 import Restful.Lemmas.JsrMatch
 import Restful.Lemmas.JsrSlash
 import Restful.Spec.Params
+import Restful.Lemmas.StateShape
 namespace Restful
 namespace Props
 variable (E : ReEnv)
@@ -156,6 +157,12 @@ example :
       route ⟨fun _ _ => true, fun _ s => !s.isEmpty⟩ cfg { method := "GET".toList, path := "/users/42/x/a/b".toList } =
         .selected 0 3 [("id".toList, "42".toList), ("rest".toList, "a/b".toList)] := by
   decide
+
+/-! The frame condition (Lemmas/StateShape.lean): the code has exactly the state this property's model
+    accounts for — no further package-level variable, struct type or field; constants as modelled. -/
+-- also: Restful.StateShape.globals_shape
+-- also: Restful.StateShape.consts_shape
+-- also: Restful.StateShape.routing_shape
 
 end Props
 end Restful
